@@ -19,7 +19,8 @@ from .c01 import tree_snapshot
 
 OPTIONAL_ATTRS = {"Allow delete", "Allow move", "Allow rename", "Public", "Visible", "Partially hidden", "Last focus", "Description",
                   "Hidden", "Mapping", "Number of bins", "Transparent no data", "Units", "Contributors", "Distance unit", "GA Version",
-                  "Version", "Modifiable", "Clipping IDs", "Allow delete contents", "Allow move contents", "Metadata", "Duplicate type on copy"}
+                  "Version", "Modifiable", "Clipping IDs", "Allow delete contents", "Allow move contents", "Metadata", "Duplicate type on copy",
+                  "Current line property ID", "Properties", "Property Group Type", "Association:pg"}
 MANDATORY_ATTRS = {"ID", "Name"}
 
 
@@ -46,6 +47,11 @@ def list_items(h5file):
                         items.append(("link", path, "Type", owner))
                     elif sub == "PropertyGroups":
                         items.append(("link", path, "PropertyGroups", owner))
+                        for pk in node[sub].keys():          # attributes of each property-group block
+                            gname = node[sub][pk].attrs.get("Group Name", b"")
+                            gname = gname.decode() if isinstance(gname, bytes) else str(gname)
+                            for a in node[sub][pk].attrs.keys():
+                                items.append(("attr", f"{path}/PropertyGroups/{pk}", a, f"pg:{owner}:{gname}"))
                     elif sub in ("Data", "Groups", "Objects") and isinstance(node[sub], h5py.Group) and len(node[sub]) == 0:
                         items.append(("link", path, sub, owner))        # an empty child container
         for tc in root["Types"].keys():
@@ -100,7 +106,7 @@ class SingleFault(Scenario):
         h5shim.reset()
         patch.STUBS_USED.add("h5py -> symx.h5shim proxy over the real in-memory HDF5 file (seam B, A-H5)")
         import uuid as _uuid
-        U = [_uuid.UUID(int=i + 1) for i in range(8)]      # fixed identifiers: the reader's recovery paths depend on their order
+        U = [_uuid.UUID(int=i + 1) for i in range(12)]      # fixed identifiers: the reader's recovery paths depend on their order
         ws = Workspace()
         g = ContainerGroup.create(ws, name="G", uid=U[0])
         o = Curve.create(ws, vertices=real_np.arange(9.0).reshape(3, 3), cells=real_np.array([[0, 1], [1, 2]], dtype="int32"), name="O",
@@ -108,16 +114,26 @@ class SingleFault(Scenario):
         d1 = o.add_data({"D1": {"values": real_np.arange(3.0), "uid": U[2]}})
         r1 = o.add_data({"R1": {"values": real_np.array([1, 2, 1], dtype="int32"), "type": "referenced", "value_map": {1: "a", 2: "b"},
                                 "uid": U[3]}})
-        o.find_or_create_property_group(name="PG", properties=[d1.uid])
+        o.find_or_create_property_group(name="PG", properties=[d1.uid], uid=U[6])
+        o.find_or_create_property_group(name="PG2", properties=[r1.uid], uid=U[7])
         o.metadata = {"k": 1}
         p = Points.create(ws, vertices=real_np.arange(6.0).reshape(2, 3), name="P", uid=U[4])
         s1 = p.add_data({"S1": {"values": real_np.arange(2.0), "uid": U[5]}})
+        from geoh5py.groups import DrillholeGroup
+        from geoh5py.objects import Drillhole
+        dg = DrillholeGroup.create(ws, name="DH", uid=U[8])
+        hole = Drillhole.create(ws, parent=dg, name="hole", collar=[0.0, 0.0, 0.0], uid=U[9],
+                                surveys=real_np.c_[[0.0, 10.0], [0.0, 0.0], [-90.0, -90.0]])
+        hole.add_data({"log": {"depth": real_np.array([1.0, 2.0]), "values": real_np.array([5.0, 6.0])}})
         uid = {"o": o.uid, "d1": d1.uid, "p": p.uid, "s1": s1.uid}
         type_users = {}
-        for e in (g, o, d1, r1, p, s1):
+        for e in (g, o, d1, r1, p, s1, dg, hole):
             type_users.setdefault(str(e.entity_type.uid), set()).add(str(e.uid))
+        for nm in hole.get_data_list():         # the types of a hole's logs describe the hole (its logs are part of its record here)
+            for dd in hole.get_data(nm):
+                type_users.setdefault(str(dd.entity_type.uid), set()).add(str(hole.uid))
         ws.close()
-        del g, o, d1, r1, p, s1
+        del g, o, d1, r1, p, s1, dg, hole
         with self.engine(cx) as X:
             ws = Workspace(ws.h5file)
             ws.get_entity(uid["o"])[0].vertices = mk_array(X, [cx.real(f"v{i}") for i in range(9)], (3, 3), "float64")
@@ -154,6 +170,8 @@ class SingleFault(Scenario):
                 described = {k for k in before if not k.startswith("#")}          # a flat container: everything may go
             elif owner and owner.startswith("type:"):
                 described = set(type_users.get(owner[5:], set()))
+            elif owner and owner.startswith("pg:"):
+                described = set()           # only that one property group of the object is described (handled below)
             elif owner:
                 described = {owner}
             grew = True
@@ -164,7 +182,7 @@ class SingleFault(Scenario):
                         described.add(k)
                         grew = True
             try:
-                ws2 = Workspace(ws.h5file)
+                ws2 = Workspace(ws.h5file, mode="r")       # reading a file never needs write access
                 after = tree_snapshot(ws2)
                 ws2.close()
             except Exception as e:  # noqa: BLE001
@@ -179,6 +197,14 @@ class SingleFault(Scenario):
                     continue
                 for fld, val in rec.items():
                     if fld == "parent" and val in described:
+                        continue
+                    if fld == "property_groups" and owner and owner.startswith("pg:") and owner.split(":")[1] == k:
+                        gone_pg = owner.split(":", 2)[2]
+                        exp_pg = {a: b for a, b in val.items() if a != gone_pg}
+                        # the described group may come back under another (default) name: only the others are compared
+                        got_pg = {a: b for a, b in after[k].get("property_groups", {}).items() if a in exp_pg}
+                        cx.prove(got_pg == exp_pg, f"without {what}: {rec['class']} '{rec['name']}': its other property groups are unchanged",
+                                 "others unchanged")
                         continue
                     cx.prove(fld in after[k] and _same(after[k][fld], val),
                              f"without {what}: {rec['class']} '{rec['name']}': {fld} unchanged", "others unchanged")
